@@ -297,7 +297,9 @@ void tdigest<T, A>::merge(vector_centroid& buffer, W weight) {
 
 template<typename T, typename A>
 double tdigest<T, A>::weighted_average(double x1, double w1, double x2, double w2) {
-  return (x1 * w1 + x2 * w2) / (w1 + w2);
+  // rounding can take the result outside of [x1, x2] (always possible when x1 == x2), so clamp it
+  const double x = (x1 * w1 + x2 * w2) / (w1 + w2);
+  return std::max(std::min(x1, x2), std::min(x, std::max(x1, x2)));
 }
 
 template<typename T, typename A>
